@@ -64,7 +64,7 @@ CLAIMED["C07"] = dict(
     note=TRUST, ref="5/C07")
 CLAIMED["C08"] = dict(
     technique="static analysis: the tokenizer's first-decision table evaluated for short and long operator spellings (same variant, same domain permission, README names), whitespace prefixes and groups; the parser's constant table vs README.md; name-only indexing of symbolic copies; the C07 renaming equations",
-    text="Decides: each hybrid operator has one short and one long arm building the same variant with the same domain permission (long names = README list); the constant spellings are exactly the README's; whitespace yields no token and a parenthesised group adds no node; evaluation sees only canonical names and selects the symbolic copy by the name's length; occurrences and binders are renamed through the same scope entry. Equality of results over all rewrites is not decided.",
+    text="Decides: each hybrid operator has one short and one long arm building the same variant with the same domain permission (long names = README list); the constant spellings are exactly the README's; whitespace yields no token, a parenthesised group adds no node and a parenthesised single name takes the route of the bare name; the variable-support check is made on the tree with minimised names; evaluation sees only canonical names and selects the symbolic copy by the name's length; occurrences and binders are renamed through the same scope entry. Equality of results over all rewrites is not decided.",
     note=TRUST + "README.md lists the documented spellings.", ref="5/C08")
 
 CLAIMED["C14"] = dict(
@@ -78,7 +78,7 @@ CLAIMED["C15"] = dict(
     note=TRUST, ref="5/C15")
 CLAIMED["C16"] = dict(
     technique="static analysis: effect trace of the zip writer (ordered operations, loops included) compared with the expected archive layout; writer / reader agreement of entry suffix, serialiser and parser; evaluation of the reader's extension filter for concrete extensions; provenance of label index and evaluated tree in analyse_formulae",
-    text="Decides: results are written as `<label>.bdd` with write_as_string and read back from exactly the `.bdd` entries with the suffix stripped once, Bdd::from_string, the caller's context, keyed by the recovered label; model.aeon and formulae.txt are written once each after the results, formulae one per line in the given order; analyse_formulae archives result i under `formula-<i>` with i the enumerate counter of the evaluation loop over the trees in input order, nothing reorders the lists, and the archived formula list is the input list. The I/O round trip itself (zip, BDD text format) is assumed (L8).",
+    text="Decides: results are written as `<label>.bdd` with write_as_string and read back from exactly the `.bdd` entries with the suffix stripped once, Bdd::from_string, the caller's context, keyed by the recovered label; model.aeon and formulae.txt are written once each after the results, formulae one per line in the given order; analyse_formulae archives result i (the raw set returned by eval_node, not a transformed copy) under `formula-<i>` with i the enumerate counter of the evaluation loop over the trees in input order, nothing reorders the lists, and the archived formula list is the input list. The I/O round trip itself (zip, BDD text format) is assumed (L8).",
     note=TRUST, ref="5/C16")
 CLAIMED["C17"] = dict(
     technique="static analysis: specification patterns over the normalised terms at the eval_node call of analyse_formulae (tree, graph, steady states, context trace); filtered-collection normal form and Boolean equivalence of the loader's keep-condition; table agreement of print options (clap list, match in main, README); unwrap-on-fallible-result rule on normalised path conditions",
@@ -90,7 +90,7 @@ CLAIMED["C19"] = dict(
     note=TRUST + "FnUpdate's connective constructors and to_bnet are assumed to do what their names say.", ref="5/C19")
 CLAIMED["C20"] = dict(
     technique="static analysis: taint-style who-may-call rule over the call graph from eval_node for colour-mixing primitives and BDD quantification; classification of colour-global predicates; equation rules (C01 shapes) showing every operator is built from pointwise primitives",
-    text="Decides the premise of the compositional argument: in everything reachable from eval_node no colour / vertex projection or selection is used, BDD quantification ranges only over state / auxiliary variables (never parameters), colour-global predicates occur only as fixed-point termination tests, the saturation guard and the empty-universe shortcut, and every operator equals its defining equation over pointwise primitives. Hence, given that the library primitives are pointwise in colour (L2, L5 - assumed), the result is pointwise in colour.",
+    text="Decides the premise of the compositional argument: in everything reachable from eval_node no colour / vertex projection or selection is used, BDD quantification ranges only over state / auxiliary variables (never parameters), colour-global predicates occur only as fixed-point termination tests, the saturation guard and the empty-universe shortcut, every operator equals its defining equation over pointwise primitives, and the steady-state / attractor shortcuts are the library's coloured computations on the graph's unit set. Hence, given that the library primitives are pointwise in colour (L2, L5 - assumed), the result is pointwise in colour.",
     note=TRUST, ref="5/C20")
 
 NOT_APPLICABLE = {
